@@ -854,6 +854,8 @@ class ComposerBinary(ComposerBase):
         composed_bytes = bytearray()
 
         for value in values:
+            if item_size == 3 and not 0 <= value < 2 ** 24:
+                raise InvalidValue(value, int)
             try:
                 packed_bytes = struct.pack(
                     self.byte_order.value + _SIZE_TO_FORMAT[item_size],
